@@ -167,6 +167,36 @@ def make_violation(prop, scratch, v, n, harness_reports):
     return "VIOLATION property=%s replay=%s%s" % (prop.id, path, "" if reproduced else " no-failing-input-found")
 
 
+def fallback_on_undecided(prop, scratch, vu, reason):
+    """A Verus unit could not be assembled or parsed from the changed text (construct outside the verifier's input language,
+    extraction rewrite no longer matching). The verifier then decides nothing. As a BOUNDED stand-in (never counted as
+    proved) the replay scenarios written for the unit's functions are run on the real code; a scenario that FAILS is a
+    concrete failing input on the real code and is reported as a violation of the unit's obligation. Returns a VIOLATION
+    line or None (still undecided)."""
+    if not getattr(prop, "replays", None):
+        return None
+    tmpl = open(os.path.join(VERIF, vu.tmpl)).read()
+    fns = []
+    for m in re.finditer(r"//@extract[^\n]*\bfn=(\w+)", tmpl):
+        if m.group(1) not in fns:
+            fns.append(m.group(1))
+    tests = ["replay_" + f for f in fns]
+    res = run_custom_replay(prop, scratch, tests)
+    if not any(r["reproduced"] for r in res):
+        return None
+    os.makedirs(REPLAY_DIR, exist_ok=True)
+    path = os.path.join(REPLAY_DIR, "%s-verus-%s.json" % (prop.id, vu.name))
+    rec = dict(property=prop.id, engine="verus", unit=vu.name, obligation=vu.obligation, functions=vu.fns,
+               failed_functions=[dict(function=r["test"][len("replay_"):], mode="exec") for r in res if r["reproduced"]],
+               failures=[], verifier_output=str(reason)[-4000:], paired_kani_failures=[], failing_input_found=True,
+               bounded_stand_in=True,
+               note="The verifier could not process the changed text of this unit (see verifier_output), so no obligation was discharged or refuted deductively. "
+                    "Bounded stand-in: the replay scenarios of the unit's functions were run on the real code and at least one FAILS - a concrete failing input on the real code.",
+               replay_on_real_code=res)
+    write_json(path, rec)
+    return "VIOLATION property=%s replay=%s" % (prop.id, path)
+
+
 def _strip_json(raw):
     i = raw.find("{\n")
     return raw[:i] if i > 0 else raw
